@@ -50,7 +50,8 @@ TraceInit ==
 
 Has(name) == e <= NEv /\ Ev.ev = name /\ In.hook = 1
 \* one step: the model action A with the event's fields F, the history update, and the step invariants afterwards
-Step(A, F) == A /\ F /\ Hist /\ StepInv' /\ e' = e + 1 /\ c' = c
+\* (P = TRUE: TLC evaluates P as a value instead of splitting its disjunctions into branches of the action)
+Step(A, F) == A /\ F = TRUE /\ Hist /\ StepInv' = TRUE /\ e' = e + 1 /\ c' = c
 
 (* ---- dbscan.step ---- *)
 TDSkip  == Has("skip") /\ alg = "dbscan" /\ Step(DSkip, SkipFields(Ev))
@@ -75,7 +76,7 @@ ResultWhy ==
 
 Accept ==
   /\ Final /\ In.hook = 1 /\ pc = "done"
-  /\ ResultIsModelState
+  /\ ResultIsModelState = TRUE
   /\ Ok(Case.id)
   /\ e' = e + 1 /\ UNCHANGED <<c, xvars>>
 
